@@ -1,6 +1,7 @@
 """C19 — device I/O failures are contained.
-Proof: AdfProps/C19.lean (a failing device access changes nothing on the disk and reports an error to the caller, for
-every program and every fault schedule; what the model's read returns under faults is a prefix of the buffer content).
+Proof: AdfProps/C19.lean (exact effect of a block read/write under any fault schedule; a failed access is reported and
+changes nothing; adfFileReadNextBlock never moves the cursor on failure and its buffer is the designated block's disk
+content on success; the read loop never touches the disk and delivers at most the request).
 Partial by nature: the schedule fails whole accesses; partial sector transfers are not modelled.
 Tie: for operations of seeded histories, the run is repeated with the k-th device access of that operation failing
 (every k for the operation; random (operation, k) pairs in quick), C under ASan vs the model with the same schedule.
